@@ -107,7 +107,7 @@ def runCase (s : St) : String :=
       | (sp, _, _) :: _ => sp.bytes
       | [] => 0
     let hGrow := traceGrow [] (ch.main ++ ch.post)
-    let hTile := spansTile lo0 ch.spans
+    let hTile := spansMono ch.spans   -- contiguity is a theorem (`spans_contiguous`)
     let hSound := ch.spans.all fun (a, b, l) => l == 0 || Id.run do
       for p in [a.bytes:min b.bytes nS] do
         if soA.getD p [] != snA.getD p [] then return false
